@@ -729,6 +729,65 @@ def d9_whole_file_writes_truncate(chk: Check, rid: str = "C19-D9",
             relpaths))
 
 
+def d10_offset_sign_applies_to_the_whole_delta(chk: Check) -> None:
+    """A rotation re-dumps the whole file; timestamps are the one plaintext
+    type yamlpath constructs and renders itself.  A UTC offset `-03:30` is
+    minus (3 h 30 min): the delta is built from the unsigned hour and
+    minute fields and negated *as a whole* when the sign field is `-`.  A
+    sign glued onto the hours alone leaves the minutes positive (-2:30), and
+    the wall-clock time comes back shifted by twice the minutes."""
+    prog = chk.prog
+    chk.rule("C19-D10", "construct_anchored_timestamp builds the UTC-offset "
+             "delta from unsigned fields and negates the whole delta under "
+             "`tz_sign == '-'`", floor=2)
+    fis = [f for f in prog.funcs_in("yamlpath/patches/timestamp.py")
+           if f.node.name == "construct_anchored_timestamp"]
+    if len(fis) != 1:
+        raise AnalysisError("construct_anchored_timestamp not found")
+    fi = fis[0]
+    deltas = [a for a in walk_local(fi.node) if isinstance(a, ast.Assign) and
+              isinstance(a.value, ast.Call) and
+              src(a.value.func).endswith("timedelta")]
+    if len(deltas) != 1:
+        raise AnalysisError("timedelta construction not found")
+    dvar = src(deltas[0].targets[0])
+    # (a) the sign field only ever meets a comparison or the tz *text*
+    signs = [n for n in walk_local(fi.node) if isinstance(n, ast.Subscript)
+             and isinstance(n.slice, ast.Constant) and
+             n.slice.value == "tz_sign"]
+    numeric = []
+    for sg in signs:
+        cur = sg
+        for a in ancestors(sg):
+            if isinstance(a, ast.Call) and src(a.func) in ("int", "float"):
+                numeric.append(a)
+            if isinstance(a, ast.stmt):
+                break
+    if numeric:
+        chk.fail("C19-D10", fi, numeric[0], "sign field converted with "
+                 "`{}`".format(src(numeric[0])[:40]),
+                 "the sign is folded into one numeric field: the other "
+                 "field of the offset keeps the opposite sign (-03:30 "
+                 "becomes -2:30)")
+    else:
+        chk.ok("C19-D10", fi, deltas[0], "delta from unsigned fields",
+               "the sign field enters no numeric conversion")
+    # (b) whole-delta negation under the sign test
+    neg = [a for a in walk_local(fi.node) if isinstance(a, ast.Assign) and
+           src(a.targets[0]) == dvar and isinstance(a.value, ast.UnaryOp) and
+           isinstance(a.value.op, ast.USub) and src(a.value.operand) == dvar
+           and any(f.kind == "cond" and f.pol and
+                   "tz_sign" in src(f.expr) and "'-'" in src(f.expr)
+                   for f in facts_at(a))]
+    if neg:
+        chk.ok("C19-D10", fi, neg[0], "`{}` under the sign test".format(
+            src(neg[0])), "whole delta negated")
+    else:
+        chk.fail("C19-D10", fi, deltas[0], "negation of the delta",
+                 "the delta is never negated as a whole for a negative "
+                 "offset")
+
+
 def run(chk: Check) -> None:
     model = CliModel(chk.prog)
     d1_marker(chk)
@@ -742,3 +801,4 @@ def run(chk: Check) -> None:
     d6_handlers(chk)
     d3b_skip_key_is_own_anchor(chk)
     d9_whole_file_writes_truncate(chk)
+    d10_offset_sign_applies_to_the_whole_delta(chk)
